@@ -281,6 +281,8 @@ class SimSocket:
             if self.closed:
                 raise OSError(errno.EBADF, "Bad file descriptor")
         data, src = self.queue.pop(0)
+        if isinstance(data, BaseException):
+            raise data              # an error event queued by inject_recv_error (e.g. ECONNRESET after an ICMP unreachable)
         if len(data) > n:
             t = type(data)(data[:n])
             if isinstance(data, TaggedBytes):
@@ -292,6 +294,15 @@ class SimSocket:
 
     def readable(self):
         return bool(self.queue)
+
+    def inject_recv_error(self, exc):
+        """The next recvfrom() that would have waited or read here raises `exc` instead (it consumes no datagram)."""
+        if self.closed:
+            return
+        self.queue.append((exc, None))
+        if self.reader is not None:
+            t, self.reader = self.reader, None
+            self.k.wake(t)
 
     def setsockopt(self, *a):
         pass
